@@ -390,6 +390,10 @@ def long_cases(cfgname, enc, hx, seed):
     yield mk(bits)
     yield mk(bits, small=False)
     yield mk(bits, pds=[[1, 3], [23, 0], [52, 990], [158, 12], [9999, 500], [148, 700]])
+    if enc != 'ascii':
+        c = mk(bits[:4], pds=[[1, 3], [23, 0], [52, 500], [158, 12]])
+        c['pds_coding'] = 'full'
+        yield c
     for b in bits:
         yield mk([x for x in bits if x != b])
     yield mk([b for b in bits if b <= 64])
